@@ -9,6 +9,21 @@ open Iox2.PubSub
 open Iox2.C16.SlotMapP (abs)
 attribute [-simp] List.getD_eq_getElem?_getD
 
+/-- subscriber records that differ only in the storage and the `to_be_removed` list -/
+def SubKeep (S S' : Sub) : Prop := ∃ st tb, S' = { S with storage := st, tbr := tb }
+
+theorem SubKeep.refl (S : Sub) : SubKeep S S := ⟨S.storage, S.tbr, rfl⟩
+theorem SubKeep.trans {a b c : Sub} (h1 : SubKeep a b) (h2 : SubKeep b c) : SubKeep a c := by
+  obtain ⟨s1, t1, rfl⟩ := h1
+  obtain ⟨s2, t2, rfl⟩ := h2
+  exact ⟨s2, t2, rfl⟩
+theorem SubKeep.fields {S S' : Sub} (h : SubKeep S S') :
+    S'.alive = S.alive ∧ S'.ex = S.ex ∧ S'.slot = S.slot ∧ S'.buffer = S.buffer ∧ S'.histReq = S.histReq ∧
+    S'.conns = S.conns ∧ S'.tbrCap = S.tbrCap ∧ S'.snapCtr = S.snapCtr ∧ S'.snap = S.snap ∧
+    S'.held = S.held ∧ S'.ghostRecv = S.ghostRecv := by
+  obtain ⟨s1, t1, rfl⟩ := h
+  exact ⟨rfl, rfl, rfl, rfl, rfl, rfl, rfl, rfl, rfl, rfl, rfl⟩
+
 theorem findTbr_some {w : World} {s : Nat} {S : Sub} {cond : Bool → Bool → Bool} :
     ∀ (l : List Nat) (n i k : Nat), findTbr w s S cond l n = some (i, k) →
       ∃ j, i = n + j ∧ l[j]? = some k ∧
@@ -68,10 +83,11 @@ structure EvictRel (w w' : World) (s : Nat) (S S' : Sub) : Prop where
   connKeep : ∀ p, (∀ k ∈ S.tbr, abs S.storage k ≠ some p) → getC w' p s = getC w p s
   frame : SFrame w w'
   panicked : w'.panicked = w.panicked
+  keep : SubKeep S S'
 
 theorem EvictRel.refl (w : World) (s : Nat) (S : Sub) : EvictRel w w s S S :=
   ⟨rfl, rfl, rfl, rfl, fun _ _ => rfl, fun _ _ h => h, fun _ h => h, fun _ _ => rfl,
-    ⟨rfl, rfl, rfl, fun _ => rfl⟩, rfl⟩
+    ⟨rfl, rfl, rfl, fun _ => rfl⟩, rfl, .refl _⟩
 
 theorem detachReceiver_panicked (w : World) (p s : Nat) : (detachReceiver w p s).panicked = w.panicked := by
   rw [detachReceiver_eq]; split
@@ -110,7 +126,7 @@ theorem evictOne {cfg : Cfg} {w : World} {xs : Option Nat} {s : Nat} {hole : Opt
         omega
     obtain ⟨r1, r2⟩ := evictTbr_inv h hS hi hk hb0
     obtain ⟨_, _, r3⟩ := smRemove_spec hSO.stI k
-    refine ⟨r1, _, r2, ⟨rfl, rfl, rfl, rfl, ?_, ?_, ?_, ?_, ?_, ?_⟩, ?_⟩
+    refine ⟨r1, _, r2, ⟨rfl, rfl, rfl, rfl, ?_, ?_, ?_, ?_, ?_, ?_, ⟨_, _, rfl⟩⟩, ?_⟩
     · intro k' hk'
       show abs (smRemove S.storage k) k' = _
       rw [r3]
